@@ -89,6 +89,7 @@ macro_rules! import_simd {
 /// defined in a sub-module.
 ///
 /// [`RefCell`]: std::cell::RefCell
+#[cfg(not(flacenc_verif))]
 macro_rules! reusable {
     ($key:ident: $t:ty) => {
         thread_local! {
@@ -97,6 +98,21 @@ macro_rules! reusable {
     };
     ($key:ident: $t:ty = $init:expr) => {
         thread_local! {
+            static $key: std::cell::RefCell<$t> = std::cell::RefCell::new($init);
+        }
+    };
+}
+
+/// Verification-only twin of `reusable!`: storage local to a *simulated* thread.
+#[cfg(flacenc_verif)]
+macro_rules! reusable {
+    ($key:ident: $t:ty) => {
+        ::shuttle::thread_local! {
+            static $key: std::cell::RefCell<$t> = std::cell::RefCell::new(Default::default());
+        }
+    };
+    ($key:ident: $t:ty = $init:expr) => {
+        ::shuttle::thread_local! {
             static $key: std::cell::RefCell<$t> = std::cell::RefCell::new($init);
         }
     };
@@ -142,6 +158,9 @@ pub(crate) mod rice;
 #[doc(hidden)]
 pub mod sigen;
 pub mod source;
+#[cfg(flacenc_verif)]
+#[doc(hidden)]
+pub mod verif;
 
 #[cfg(test)]
 pub mod test_helper;
